@@ -338,7 +338,17 @@ MaterialiseTerm == [k |-> "collect_vec", t |-> <<>>, op |-> "", tk |-> "", pre |
 RECURSIVE Groups(_)
 Groups(p) ==
   LET es == EagerStages(p)
-  IN  IF es = {} THEN <<p>>
+  IN  IF es = {}
+      THEN \* for_each(f) is map(f).count(): on a type whose `map` materialises, the chain so far is
+           \* collected first and f runs over the collected elements in a run of its own
+           IF p.term.k = "for_each" /\ Len(Stages(p)) > 0 /\ Trans(FinalType(p), "map")[2]
+           THEN LET p1 == [src |-> p.src, input |-> p.input, elems |-> SrcElems(p), off |-> StageOff(p),
+                           ops |-> p.ops, term |-> MaterialiseTerm, cs |-> p.cs, ck |-> p.ck]
+                    mid == SeqOut(p1)
+                IN  << p1,
+                       [src |-> "vec", input |-> Vals(mid), elems |-> mid, off |-> StageOff(p) + Len(Stages(p)),
+                        ops |-> SelectSeq(p.ops, IsParamOp), term |-> p.term, cs |-> p.cs, ck |-> p.ck] >>
+           ELSE <<p>>
       ELSE LET e == MinOf(es)
                idx == OpIndexOfStage(p.ops, 1, e)
                before == SubSeq(p.ops, 1, idx - 1)
